@@ -252,7 +252,7 @@ namespace hs
         if (profile == "C04")
             sut = r.chance(1, 2) ? pick(r, POOLS) : pick(r, COLLS);
         else if (profile == "C05")
-            sut = r.chance(1, 2) ? pick(r, ARENAS) : any_user();
+            sut = r.chance(1, 8) ? std::string("temp") : r.chance(1, 2) ? pick(r, ARENAS) : any_user();
         else if (profile == "C06")
             sut = r.chance(1, 8) ? std::string("temp") : pick(r, STACKS);
         else if (profile == "C07")
